@@ -348,6 +348,9 @@ func csvQuoterShape(c *Ctx, f *ssa.Function, in *ssa.Parameter) string {
 		return ""
 	}
 	// builder form: q.WriteByte('"'); for each byte { q.WriteByte(b); if b == '"' { q.WriteByte('"') } }; q.WriteByte('"'); q.String()
+	if d := csvQuoterEmitShape(c, f, in, rv); d != "" {
+		return d
+	}
 	if d := csvQuoterBuilderShape(c, f, in, rv); d != "" {
 		return d
 	}
